@@ -87,6 +87,15 @@ def _work(arg):
         return ('err', 'shard %r: %s' % (shard, traceback.format_exc()))
 
 
+def match_known(sig, known_sigs):
+    if sig in known_sigs:
+        return sig
+    for k in known_sigs:
+        if k.endswith('*') and sig.startswith(k[:-1]):
+            return k
+    return None
+
+
 def load_known():
     if not os.path.exists(KNOWN):
         return []
@@ -159,12 +168,14 @@ def main(argv=None):
     for f in total.failures:
         if getattr(mod, 'ORACLES', None) and f.get('oracle') and f['oracle'] not in mod.ORACLES:
             continue
-        if f['sig'] in known_sigs:
-            seen_known.setdefault(f['sig'], f)
+        ks = match_known(f['sig'], known_sigs)
+        if ks is not None:
+            f['known'] = ks
+            seen_known.setdefault(ks, f)
         else:
             new.setdefault(f['sig'], f)
     for sig, f in sorted(seen_known.items()):
-        n = total.counters.get('failsig:' + sig, 1)
+        n = sum(v for k, v in total.counters.items() if k.startswith('failsig:') and match_known(k[8:], known_sigs) == sig)
         print('KNOWN-FINDING: property=%s %s (%d cases this run; e.g. %s)' % (pid, known_sigs[sig]['text'], n, f['msg'][:200]))
     rc = 0
     nviol = 0
